@@ -366,6 +366,59 @@ def job_autolive(job, tmp):
     return {"nsnap": nsnap, "full_compares": full, "bad": bad[:4], "nbad": len(bad)}
 
 
+def job_automix(job, tmp):
+    """one simulation object, one archive, automatic cadence; history mixing integrate() calls (heartbeats), manual
+    step()/steps(k) (no heartbeat), detach (no archive attached) and re-attach with the same cadence.  Reports, per attach
+    segment: the threshold after the attach, the values the heartbeats saw, the snapshots written (steps_done / t) and the final
+    threshold, so that the heartbeat model can be run on exactly the same heartbeat sequence."""
+    fname = os.path.join(tmp, "mx.bin")
+    if os.path.exists(fname):
+        os.remove(fname)
+    sim = L.new_sim(rebound, job["spec"])
+    twin = sim.copy()
+    mode, val = job["mode"], job["val"]
+    segs = []; cur = None; attached = False
+    def nblobs():
+        if not os.path.exists(fname):
+            return 0
+        return int(rebound.Simulationarchive(fname, process_warnings=False).nblobs)
+    def close():
+        nonlocal cur
+        if cur is not None:
+            n1 = nblobs()
+            sa = rebound.Simulationarchive(fname, process_warnings=False) if n1 else None
+            snaps = [sa[k] for k in range(cur["n0"], n1)] if sa else []
+            cur["snap_steps"] = [int(s.steps_done) for s in snaps]
+            cur["snap_t"] = [s.t.hex() for s in snaps]
+            cur["final_next_step"] = int(sim.simulationarchive_next_step)
+            cur["final_next"] = sim.simulationarchive_next.hex()
+            segs.append(cur); cur = None
+    for op in job["ops"]:
+        if op[0] == "attach":
+            close()
+            _attach(sim, fname, mode, val); attached = True
+            cur = {"n0": nblobs(), "next_step0": int(sim.simulationarchive_next_step), "next0": sim.simulationarchive_next.hex(),
+                   "xs_steps": [], "xs_t": [], "sign": (1.0 if sim.dt > 0 else -1.0)}
+        elif op[0] == "detach":
+            close()
+            sim._simulationarchive_filename = None; attached = False
+        elif op[0] == "manual":
+            sim.steps(op[1])
+            for _ in range(op[1]):
+                twin.step()
+        elif op[0] == "integrate":
+            n = op[1]
+            if attached:
+                cur["xs_steps"].append(int(twin.steps_done)); cur["xs_t"].append(twin.t.hex())
+            sim.integrate(sim.t + (n - 0.5) * sim.dt, exact_finish_time=0)
+            for _ in range(n):
+                twin.step()
+                if attached:
+                    cur["xs_steps"].append(int(twin.steps_done)); cur["xs_t"].append(twin.t.hex())
+    close()
+    return {"segs": segs, "in_step": (twin.steps_done == sim.steps_done and twin.t == sim.t), "mode": mode, "val": val, "steps_done": int(sim.steps_done)}
+
+
 def job_autoF(job, tmp):
     """interval cadence in binary64: the heartbeat times (before every step and after each integrate call), the library's
     snapshot times and the final accumulated threshold simulationarchive_next"""
@@ -456,7 +509,7 @@ def main():
     with tempfile.TemporaryDirectory(prefix="c06drv") as tmp:
         for job in jobs:
             try:
-                r = {"hist": job_hist, "auto": job_auto, "open": job_open, "resume": job_resume, "spoof": job_spoof, "cycle": job_cycle, "many": job_many, "attach": job_attach, "autocrash": job_autocrash, "autoF": job_autoF, "autolive": job_autolive}[job["kind"]](job, tmp)
+                r = {"hist": job_hist, "auto": job_auto, "open": job_open, "resume": job_resume, "spoof": job_spoof, "cycle": job_cycle, "many": job_many, "attach": job_attach, "autocrash": job_autocrash, "autoF": job_autoF, "autolive": job_autolive, "automix": job_automix}[job["kind"]](job, tmp)
             except Exception as e:
                 import traceback
                 r = {"exception": "%r" % (e,), "tb": traceback.format_exc()[-600:]}
